@@ -374,6 +374,56 @@ fn cmp_count(out: &mut Vec<RevFail>, accessor: &'static str, item: &str, got: Re
     }
 }
 
+/// references of an annotation as the selector iterator with recursion sees them: its own parts and, through
+/// AnnotationSelectors, the parts of the annotations it targets (transitively)
+fn closure_parts<'a>(fw: &'a [HAnn], h: usize, seen: &mut Vec<usize>, out: &mut Vec<&'a HRef>) {
+    if seen.contains(&h) {
+        return;
+    }
+    seen.push(h);
+    if let Some(a) = fw.iter().find(|a| a.handle == h) {
+        for p in &a.parts {
+            out.push(p);
+            if let HRef::Ann { ann, .. } = p {
+                closure_parts(fw, *ann, seen, out);
+            }
+        }
+    }
+}
+
+fn cmp_set<T: Ord + std::fmt::Debug + Clone>(out: &mut Vec<RevFail>, accessor: &'static str, item: &str, got: Result<Vec<T>, String>, want: &BTreeSet<T>) {
+    match got {
+        Err(m) => out.push(RevFail { accessor, symptom: format!("panic:{}", msg_class(&m)), detail: format!("{}: panicked", item) }),
+        Ok(got) => {
+            let gs: BTreeSet<T> = got.iter().cloned().collect();
+            if gs.len() != got.len() {
+                out.push(RevFail { accessor, symptom: "duplicate".into(), detail: format!("{}: got {:?}", item, got) });
+            } else if &gs != want {
+                let symptom = if gs.is_subset(want) { "missing" } else if want.is_subset(&gs) { "extra" } else { "missing+extra" };
+                out.push(RevFail { accessor, symptom: symptom.into(), detail: format!("{}: got {:?}, forward references say {:?}", item, got, want) });
+            }
+        }
+    }
+}
+
+/// `lower` must be contained in the result and the result in `upper` (the documentation leaves open whether references
+/// reached through targeted annotations count; both readings are accepted, anything outside them is not)
+fn cmp_between<T: Ord + std::fmt::Debug + Clone>(out: &mut Vec<RevFail>, accessor: &'static str, item: &str, got: Result<Vec<T>, String>, lower: &BTreeSet<T>, upper: &BTreeSet<T>) {
+    match got {
+        Err(m) => out.push(RevFail { accessor, symptom: format!("panic:{}", msg_class(&m)), detail: format!("{}: panicked", item) }),
+        Ok(got) => {
+            let gs: BTreeSet<T> = got.iter().cloned().collect();
+            if gs.len() != got.len() {
+                out.push(RevFail { accessor, symptom: "duplicate".into(), detail: format!("{}: got {:?}", item, got) });
+            } else if !lower.is_subset(&gs) {
+                out.push(RevFail { accessor, symptom: "missing".into(), detail: format!("{}: got {:?}, the annotation's own target names {:?}", item, got, lower) });
+            } else if !gs.is_subset(upper) {
+                out.push(RevFail { accessor, symptom: "extra".into(), detail: format!("{}: got {:?}, reachable through the target are only {:?}", item, got, upper) });
+            }
+        }
+    }
+}
+
 fn handles<'a>(it: impl Iterator<Item = ResultItem<'a, Annotation>>) -> Vec<usize> {
     it.map(|a| a.handle().as_usize()).collect()
 }
@@ -441,6 +491,31 @@ pub fn check_reverse(store: &AnnotationStore) -> Vec<RevFail> {
         }
     }
     let empty: Vec<usize> = Vec::new();
+    // an annotation that reaches itself through its targets cannot be built through the API (a target must exist first);
+    // a store that has one (only loadable from a damaged binary file) makes the library's recursive accessors loop
+    let cyclic = {
+        fn reaches(fw: &[HAnn], from: usize, goal: usize, seen: &mut Vec<usize>) -> bool {
+            if seen.contains(&from) {
+                return false;
+            }
+            seen.push(from);
+            if let Some(a) = fw.iter().find(|a| a.handle == from) {
+                for p in &a.parts {
+                    if let HRef::Ann { ann, .. } = p {
+                        if *ann == goal || reaches(fw, *ann, goal, seen) {
+                            return true;
+                        }
+                    }
+                }
+            }
+            false
+        }
+        fw.iter().any(|a| reaches(&fw, a.handle, a.handle, &mut Vec::new()))
+    };
+    if cyclic {
+        out.push(RevFail { accessor: "Annotation::target", symptom: "cycle".into(), detail: "an annotation reaches itself through its targets".into() });
+        return out;
+    }
     // resources and their text selections
     for r in store.resources() {
         let rh = r.handle().as_usize();
@@ -550,6 +625,51 @@ pub fn check_reverse(store: &AnnotationStore) -> Vec<RevFail> {
                 }
             }
         }
+        // derived views on the target: resources / keys / data / datasets reached, text selection sets per resource
+        {
+            let mut seen = Vec::new();
+            let mut cl: Vec<&HRef> = Vec::new();
+            closure_parts(&fw, a.handle, &mut seen, &mut cl);
+            let res_meta: BTreeSet<usize> = cl.iter().filter_map(|p| if let HRef::Res(r) = p { Some(*r) } else { None }).collect();
+            let res_text: BTreeSet<usize> = cl.iter().filter_map(|p| if let HRef::Text { res, .. } = p { Some(*res) } else { None }).collect();
+            let keys: BTreeSet<(usize, usize)> = cl.iter().filter_map(|p| if let HRef::Key(s, k) = p { Some((*s, *k)) } else { None }).collect();
+            let datas: BTreeSet<(usize, usize)> = cl.iter().filter_map(|p| if let HRef::Data(s, d) = p { Some((*s, *d)) } else { None }).collect();
+            let own = |f: &dyn Fn(&HRef) -> Option<usize>| -> BTreeSet<usize> { a.parts.iter().filter_map(|p| f(p)).collect() };
+            let own2 = |f: &dyn Fn(&HRef) -> Option<(usize, usize)>| -> BTreeSet<(usize, usize)> { a.parts.iter().filter_map(|p| f(p)).collect() };
+            let d_res_meta = own(&|p| if let HRef::Res(r) = p { Some(*r) } else { None });
+            let d_res_text = own(&|p| if let HRef::Text { res, .. } = p { Some(*res) } else { None });
+            let d_keys = own2(&|p| if let HRef::Key(s, k) = p { Some((*s, *k)) } else { None });
+            let d_datas = own2(&|p| if let HRef::Data(s, d) = p { Some((*s, *d)) } else { None });
+            cmp_between(&mut out, "Annotation::resources_as_metadata", &name, catch(|| ann.resources_as_metadata().map(|r| r.handle().as_usize()).collect()), &d_res_meta, &res_meta);
+            cmp_between(&mut out, "Annotation::resources", &name, catch(|| ann.resources().map(|r| r.handle().as_usize()).collect()), &d_res_text, &res_text);
+            cmp_between(&mut out, "Annotation::keys_as_metadata", &name, catch(|| ann.keys_as_metadata().map(|k| (k.set().handle().as_usize(), k.handle().as_usize())).collect()), &d_keys, &keys);
+            cmp_between(&mut out, "Annotation::data_as_metadata", &name, catch(|| ann.data_as_metadata().map(|d| (d.set().handle().as_usize(), d.handle().as_usize())).collect()), &d_datas, &datas);
+            // own dataset targets (no recursion in the library's datasets())
+            let sets: BTreeSet<usize> = a.parts.iter().filter_map(|p| if let HRef::Set(s) = p { Some(*s) } else { None }).collect();
+            cmp_set(&mut out, "Annotation::datasets", &name, catch(|| ann.datasets().map(|s| s.handle().as_usize()).collect()), &sets);
+            // text selection sets: the selections of textselections() grouped by resource
+            let mut groups: BTreeMap<usize, BTreeSet<usize>> = BTreeMap::new();
+            for (r, t) in &want_ts {
+                groups.entry(*r).or_default().insert(*t);
+            }
+            let want_groups: BTreeSet<(usize, Vec<usize>)> = groups.into_iter().map(|(r, ts)| (r, ts.into_iter().collect())).collect();
+            cmp_set(
+                &mut out,
+                "Annotation::textselectionsets",
+                &name,
+                catch(|| {
+                    ann.textselectionsets()
+                        .map(|set| {
+                            let mut ts: Vec<usize> = set.iter().map(|t| t.handle().map(|h| h.as_usize()).unwrap_or(usize::MAX)).collect();
+                            ts.sort();
+                            ts.dedup();
+                            (set.resource().handle().as_usize(), ts)
+                        })
+                        .collect()
+                }),
+                &want_groups,
+            );
+        }
         // data()
         let got_d = catch(|| ann.data().map(|d| (d.set().handle().as_usize(), d.handle().as_usize())).collect::<Vec<_>>());
         match got_d {
@@ -558,6 +678,63 @@ pub fn check_reverse(store: &AnnotationStore) -> Vec<RevFail> {
                 if g != a.data {
                     out.push(RevFail { accessor: "Annotation::data", symptom: "dangling-or-differs".into(), detail: format!("{}: got {:?}, raw data {:?}", name, g, a.data) });
                 }
+            }
+        }
+    }
+    // metadata about resources, seen from the resource (filtered by data) and from the data / key
+    {
+        let ann_data: BTreeMap<usize, &Vec<(usize, usize)>> = fw.iter().map(|a| (a.handle, &a.data)).collect();
+        let res_meta_direct = |h: usize| -> BTreeSet<usize> {
+            fw.iter().find(|a| a.handle == h).map(|a| a.parts.iter().filter_map(|p| if let HRef::Res(r) = p { Some(*r) } else { None }).collect()).unwrap_or_default()
+        };
+        let res_meta_closure = |h: usize| -> BTreeSet<usize> {
+            let mut seen = Vec::new();
+            let mut cl: Vec<&HRef> = Vec::new();
+            closure_parts(&fw, h, &mut seen, &mut cl);
+            cl.iter().filter_map(|p| if let HRef::Res(r) = p { Some(*r) } else { None }).collect()
+        };
+        for s in store.datasets() {
+            let sh = s.handle().as_usize();
+            for d in s.data() {
+                let dh = d.handle().as_usize();
+                let dname = format!("dataset {} data {}", s.id().unwrap_or("?"), data_name(d.id(), dh));
+                let users = by_data.get(&(sh, dh)).cloned().unwrap_or_default();
+                let mut want_res: BTreeSet<usize> = BTreeSet::new();
+                let mut low_res: BTreeSet<usize> = BTreeSet::new();
+                for u in &users {
+                    want_res.extend(res_meta_closure(*u));
+                    low_res.extend(res_meta_direct(*u));
+                }
+                cmp_between(&mut out, "AnnotationData::resources_as_metadata", &dname, catch(|| d.resources_as_metadata().map(|r| r.handle().as_usize()).collect()), &low_res, &want_res);
+                for r in store.resources() {
+                    let rh = r.handle().as_usize();
+                    if by_res_meta.get(&rh).map(|v| v.is_empty()).unwrap_or(true) {
+                        continue; // no metadata annotation on this resource (annotations_as_metadata() was compared above)
+                    }
+                    let want: Vec<usize> = by_res_meta.get(&rh).unwrap_or(&empty).iter().copied().filter(|a| ann_data.get(a).map(|v| v.contains(&(sh, dh))).unwrap_or(false)).collect();
+                    let item = format!("resource {} about {}", r.id().unwrap_or("?"), dname);
+                    cmp_list(&mut out, "TextResource::annotations_by_metadata_about", &item, catch(|| handles(r.annotations_by_metadata_about(d.clone()))), &want);
+                    match catch(|| r.has_metadata_about(d.clone())) {
+                        Ok(b) if b == !want.is_empty() => {}
+                        Ok(b) => out.push(RevFail { accessor: "TextResource::has_metadata_about", symptom: format!("wrong:{}", b), detail: format!("{}: {} but the matching annotations are {:?}", item, b, want) }),
+                        Err(m) => out.push(RevFail { accessor: "TextResource::has_metadata_about", symptom: format!("panic:{}", msg_class(&m)), detail: item.clone() }),
+                    }
+                }
+            }
+            for k in s.keys() {
+                let kh = k.handle().as_usize();
+                let mut want_res: BTreeSet<usize> = BTreeSet::new();
+                let mut low_res: BTreeSet<usize> = BTreeSet::new();
+                for d in s.data() {
+                    if catch(|| d.key().handle().as_usize()).ok() == Some(kh) {
+                        for u in by_data.get(&(sh, d.handle().as_usize())).cloned().unwrap_or_default() {
+                            want_res.extend(res_meta_closure(u));
+                            low_res.extend(res_meta_direct(u));
+                        }
+                    }
+                }
+                let kname = format!("dataset {} key {}", s.id().unwrap_or("?"), k.as_str());
+                cmp_between(&mut out, "DataKey::resources_as_metadata", &kname, catch(|| k.resources_as_metadata().into_iter().map(|r| r.handle().as_usize()).collect()), &low_res, &want_res);
             }
         }
     }
